@@ -113,6 +113,13 @@ func init() {
 				{File: tf, Old: "\t\t\tif err := os.Symlink(header.Linkname, targetPath); err != nil {\n", New: "\t\t\tcreate := func() error { return os.Symlink(header.Linkname, targetPath) }\n\t\t\tif err := create(); err != nil {\n"},
 				{File: tf, Old: "\t\t\tlinkDir, _ := filepath.Split(targetPath)\n\t\t\tif _, err := containedPath(realDest, linkDir+filepath.FromSlash(header.Linkname), true); err != nil {\n\t\t\t\treturn fmt.Errorf(\"symlink target escapes destination: %s -> %s\", targetPath, header.Linkname)\n\t\t\t}\n", New: ""},
 			}},
+			// ---- round 4
+			{Name: "follow flag is 'entry is a directory': regular files keep their last component", ExpectRule: "C27.R3", ExpectKey: "os.OpenFile", Edits: []Edit{
+				{File: tf, Old: "\t\tisLink := header.Typeflag == tar.TypeSymlink || header.Typeflag == tar.TypeLink\n\t\ttargetPath, err = containedPath(realDest, targetPath, !isLink)\n", New: "\t\tisDir := header.Typeflag == tar.TypeDir\n\t\ttargetPath, err = containedPath(realDest, targetPath, isDir)\n"},
+			}},
+			{Name: "rewrite: link entries defined as everything but directories and regular files", Edits: []Edit{
+				{File: tf, Old: "isLink := header.Typeflag == tar.TypeSymlink || header.Typeflag == tar.TypeLink", New: "isLink := header.Typeflag != tar.TypeDir && header.Typeflag != tar.TypeReg"},
+			}},
 			{Name: "rewrite: containment test written with filepath.Rel", Edits: []Edit{
 				{File: tf, Old: "\troot := strings.TrimSuffix(realDest, string(filepath.Separator))\n\tif realPath != realDest && !strings.HasPrefix(realPath, root+string(filepath.Separator)) {\n", New: "\trel, rerr := filepath.Rel(realDest, realPath)\n\tif rerr != nil || rel == \"..\" || strings.HasPrefix(rel, \"..\"+string(filepath.Separator)) {\n"},
 			}},
@@ -367,7 +374,13 @@ func runC27(p *kit.Program, r *kit.Report) {
 	r.Rule("C27.R3", "a mutating call that follows a link in the last path component (OpenFile, MkdirAll, WriteFile, Chmod, ...) receives a fully resolved contained path; a contained path whose last component was kept as named reaches only calls that act on that name itself (Remove, Symlink/Link new name, Rename, Mkdir) or has that component stripped (filepath.Dir) first")
 	r.Rule("C27.R4", "the containment comparison is component-wise: a strings.HasPrefix between the resolved path and the root uses a prefix that provably ends with the path separator (or the test is made with filepath.Rel / equality); substring, suffix and case-insensitive comparisons are not containment tests")
 	r.Rule("C27.R2", "link targets: the source of a hard link passes the same barrier, and the text of a symbolic link taken from the archive is passed through a containment resolver whose error is checked before os.Symlink")
+	c27Analyse(p, r, nil, true)
+}
 
+// c27Analyse runs the C27 rule set over the mutating sinks accepted by filter (nil = all).
+// With floors false a missing subject (no archive/tar, no extractor) is a note, not a floor:
+// that is how C26 embeds the analysis for the extraction that a directory upload performs.
+func c27Analyse(p *kit.Program, r *kit.Report, filter func(s c26SinkSite) bool, floors bool) {
 	cx := &c27Ctx{c26Ctx: newC26Ctx(p), contained: map[*ssa.Function]int{}, notes: map[*ssa.Function]string{}}
 	var linkname *types.Var
 	if tp := p.All["archive/tar"]; tp != nil && tp.Types != nil {
@@ -385,7 +398,12 @@ func runC27(p *kit.Program, r *kit.Report) {
 			}
 		}
 	}
-	if !r.Require(len(cx.taint) == 2 && linkname != nil, "anchor-unresolved: archive/tar.Header fields Name and Linkname (is archive/tar imported by the loaded packages?)") {
+	if len(cx.taint) != 2 || linkname == nil {
+		if floors {
+			r.Floor("anchor-unresolved: archive/tar.Header fields Name and Linkname (is archive/tar imported by the loaded packages?)")
+		} else {
+			r.Note("archive/tar is not among the loaded packages: no tar extraction to judge")
+		}
 		return
 	}
 	// extractors: functions calling (*tar.Reader).Next
@@ -397,7 +415,12 @@ func runC27(p *kit.Program, r *kit.Report) {
 		}
 	}
 	r.Count("tar_extractor_functions", nExtract)
-	if !r.Require(nExtract >= 1, "floor: no function in the loaded packages calls (*archive/tar.Reader).Next") {
+	if nExtract < 1 {
+		if floors {
+			r.Floor("floor: no function in the loaded packages calls (*archive/tar.Reader).Next")
+		} else {
+			r.Note("no function in the loaded packages iterates a tar stream")
+		}
 		return
 	}
 
@@ -405,6 +428,9 @@ func runC27(p *kit.Program, r *kit.Report) {
 	r.Count("mutating_fs_calls_in_repo", len(sinks))
 	nBar, nBad, nFollow := 0, 0, 0
 	for _, s := range sinks {
+		if filter != nil && !filter(s) {
+			continue
+		}
 		args := s.call.Common().Args
 		for _, ai := range s.args {
 			if ai >= len(args) {
